@@ -79,3 +79,25 @@ Definition http_reply (lo n : N) (body : bytes) : hres :=
 
 (* the ids the client puts on the wire *)
 Definition http_mk_id (idstr : bool) (k : N) : id := if idstr then IdStr (print_N k) else IdNum k.
+
+(* ---------- the single call (client.rs `request`, rpc_service.rs `call`) ----------
+   The body goes through read_body, is parsed as ONE Response; an error object is returned as the call's error
+   (ResponseSuccess::try_from, BEFORE the id is looked at); otherwise the result is decoded and only then the id of the
+   reply is compared (derived PartialEq on Id: number vs string are different) with the id of the request. *)
+Inductive sres := SOk (raw : bytes) | SCall (e : errobj) | SErr (e : herr).
+
+Definition http_single_resp (i : id) (r : response) : sres :=
+  match rs_payload r with
+  | PError e => SCall e
+  | PResult raw => if id_eqb (rs_id r) i then SOk raw else SErr HNotPending
+  end.
+
+Definition http_single (i : id) (body : bytes) : sres :=
+  match HttpGate.read_body [] [HttpGate.FData body] http_max_response with
+  | HttpGate.RbOk text _ =>
+    match parse_response text with
+    | Some r => http_single_resp i r
+    | None => SErr HParse
+    end
+  | _ => SErr HTransport
+  end.
